@@ -12,7 +12,7 @@ import ast
 from ..core import rule, AnalysisError
 from ..engine import pattern as P
 from ..engine.facts import dotted, const, src, walk_func, enclosing_stmt
-from .common import calls, pn, access_paths
+from .common import calls, pn, access_paths, sym_cases, resolve, resolve_deep, guards_of, branch_paths
 from . import c10  # xml-table (what the `x` flag denotes) is registered for C02 there
 from . import c03  # printer-indents-first-line-only (multi-line expressions keep their text) is registered for C02 there
 
@@ -139,6 +139,15 @@ class _Compose:
                     if isinstance(n_.test, ast.BoolOp):
                         ast.copy_location(n_.test, test)
                 return self.run([outer] + rest, env, facts)
+            if isinstance(test, ast.BoolOp) and isinstance(test.op, ast.Or):
+                # if A or B: X else: Y  ==  if A: X else: (if B: X else: Y)
+                inner = ast.If(test=test.values[1] if len(test.values) == 2 else ast.BoolOp(op=ast.Or(), values=test.values[1:]), body=s.body, orelse=s.orelse)
+                outer = ast.If(test=test.values[0], body=s.body, orelse=[inner])
+                for n_ in (inner, outer):
+                    ast.copy_location(n_, s)
+                    if isinstance(n_.test, ast.BoolOp):
+                        ast.copy_location(n_.test, test)
+                return self.run([outer] + rest, env, facts)
             a = self.atom(test, env)
             if a is None:
                 self.run(list(s.body) + rest, dict(env), facts)
@@ -191,7 +200,8 @@ class _Compose:
         if isinstance(s, ast.Assign):
             return self.run(rest, env, facts)
         if isinstance(s, ast.For):
-            self.paths.append((env.get(self.argsp), facts))
+            # the list the wrapping loop runs over is the composed filter list
+            self.paths.append((self.val(s.iter, env), facts))
             return
         raise AnalysisError("create_filter_callable: statement %s not understood" % type(s).__name__)
 
@@ -265,7 +275,7 @@ def wrap_order(ctx):
     fn = db.func("codegen._GenerateRenderMethod.create_filter_callable")
     loops = [n for n in fn.body if isinstance(n, ast.For)]
     argsp, targetp = pn(fn, 1), pn(fn, 2)
-    ctx.require(loops and src(loops[0].iter) == argsp and isinstance(loops[0].target, ast.Name), "create_filter_callable: `for e in args` not found")
+    ctx.require(loops and isinstance(loops[0].iter, ast.Name) and isinstance(loops[0].target, ast.Name), "create_filter_callable: `for e in args` not found")
     lp = loops[0]
     ev = lp.target.id
     tg = [s for s in ast.walk(lp) if isinstance(s, ast.Assign) and src(s.targets[0]) == targetp]
@@ -343,17 +353,27 @@ def guard(ctx):
     """visitExpression takes the filtered path iff the expression, the page tag or the template configures filters"""
     db = ctx.db
     ve = db.func("codegen._GenerateRenderMethod.visitExpression")
-    ifs = [i for i in ve.body if isinstance(i, ast.If)]
-    ctx.require(ifs, "visitExpression has no guard")
-    t = ifs[0].test
-    vals = t.values if isinstance(t, ast.BoolOp) and isinstance(t.op, ast.Or) else [t]
+    # the unfiltered write happens exactly when every source of filters is empty: the conditions (all taken false) of the case
+    # in which node.text is written as it is
+    cases = [(c_, v_, w_) for w_ in calls(ve, "self.printer.writeline") for c_, v_ in sym_cases(ve, w_.args[0])]
+    plain = [(c_, v_, w_) for c_, v_, w_ in cases if P.matches(v_, "'__M_writer(%%s)' %% %s.text" % pn(ve, 1))]
+    ctx.require(plain and len(cases) > len(plain), "visitExpression has no guard")
+    class _G:
+        pass
+    ifs = [_G()]
+    ifs[0] = plain[0][2]
+    vals = []
+    for t_, tv_ in plain[0][0]:
+        if tv_:
+            vals = []
+            break
+        vals += list(t_.values) if isinstance(t_, ast.BoolOp) and isinstance(t_.op, ast.Or) else [t_]
     texts = [src(v) for v in vals]
     for frag, what in (("node.escapes", "the expression's own filters"), ("pagetag.filter_args.args", "<%page expression_filter>"), ("default_filters", "default_filters")):
         ctx.check(any(frag in x for x in texts), "disjunct:" + frag, db.where(ifs[0]), "the filter guard ignores %s: an expression with only %s configured is written unfiltered" % (what, what), "tests " + what)
     pg = [x for x in texts if "pagetag.filter_args" in x]
     ctx.check(bool(pg) and "pagetag is not None" in pg[0], "page-none-safe", db.where(ifs[0]), "page filter test does not guard against a missing page tag", "guards pagetag is not None")
-    els = ifs[0].orelse
-    ctx.check(bool(els) and "__M_writer(%s)" in src(els[0]) and "node.text" in src(els[0]), "unfiltered-branch", db.where(ifs[0]), "unfiltered branch does not write node.text", "else: __M_writer(node.text)")
+    ctx.check(len(plain) == 1 and bool(vals), "unfiltered-branch", db.where(ifs[0]), "unfiltered branch does not write node.text", "else: __M_writer(node.text)")
     # Expression parses its filter list with ArgumentList and excludes builtin flags from undeclared names
     ex = db.func("parsetree.Expression.__init__")
     ctx.check("ast.ArgumentList(escapes" in src(ex), "filter-list-parsed", db.where(ex), "the filter list is not parsed as an argument list", "escapes parsed by ArgumentList")
